@@ -833,6 +833,89 @@ func crashGenInfix(g *Gen) {
 	}
 }
 
+// ---------------------------------------------------------------- stateful value histories
+
+// a larger step set for the random histories: records with declared field types, infix
+// element assignment, aliasing, passing through functions, copies, printing, json
+var crashHistSteps = []string{
+	"(def %v [1 2])", "(def %v [3 4])", "(def %v [1.5])", "(def %v [\"s\"])", "(def %v [])", "(def %v (hash k: 1))", "(def %v (list 1 2))",
+	"(def %v 1)", "(def %v nil)", "(def %v (fn [x] x))", "(def %v [(hash)])", "(def %v [[1] [2]])", "(def %v (Rec f: 1))", "(def %v [(Rec f: 1)])",
+	"(aset %v 0 (list 7 8))", "(aset %v 0 nil)", "(aset %v 0 %v)", "(aset %v 0 %u)", "(aset %v 0 \"s\")", "(aset %v 0 2.5)", "(aset %v 0 (fn [] 1))",
+	"(aset %v 0 (hash))", "(aset %v 1 %u)", "(hset %v k: %v)", "(hset %v k: %u)", "(hset %v f: %u)", "(hset %v g: %u)", "(hdel %v k:)",
+	"{%v[0] = 2.5}", "{%v[0] = %u}", "{%v = %u}", "{%v.g = %u}", "{%v.f = %u}", "{%v.k = %u}", "(set %v %u)", "(set %v [%u])",
+	"(def %v (rest %u))", "(def %v (append %u 1))", "(def %v (append %u %u))", "(def %v (slice %u 0 1))", "(def %v (concat %u %u))",
+	"(def %v (copy %u))", "(def %v ((fn [x] x) %u))", "(def %v (map (fn [x] x) %u))", "(def %v (first %u))", "(def %v (cons %u %u))",
+	"(def %v [%u])", "(def %v [%u %v])", "(def %v (list %u))", "(def %v (hash k: %u))", "(str %v)", "(type? %v)", "(str (type? %v) %v)",
+	"(== %v %u)", "(json %v)", "(len %v)", "(let [%v %u] (def %v [1]))", "(mdef %v %u (list %u %v))", "{%v, %u = %u, %v}",
+	"(for [(def i 0) (< i 1) (def i (+ i 1))] (def %v %u))", "((fn [%v] (def %v [1.5])) %u)", "(defn %vf [] %v) (%vf)",
+}
+
+func crashGenHist(g *Gen) {
+	// systematic small scope: all histories of ≤ 4 steps over 12 step kinds on one variable,
+	// ≤ 3 steps on two variables (thorough: 4 steps on two variables, 5 on one)
+	emit := func(nvars, length int) {
+		base := int64(len(crashStepKinds) * nvars)
+		total := int64(len(crashStepKinds))
+		for i := 1; i < length; i++ {
+			total *= base
+		}
+		step := int64(2048)
+		for from := int64(0); from < total; from += step {
+			to := from + step
+			if to > total {
+				to = total
+			}
+			g.Emit("v %d %d %d %d", nvars, length, from, to)
+			g.Stats["hist-enumerated"] += int(to - from)
+			g.Count("hist-ranges")
+		}
+	}
+	for l := 1; l <= 4; l++ {
+		emit(1, l)
+	}
+	for l := 2; l <= 3; l++ {
+		emit(2, l)
+	}
+	if g.Thorough() {
+		emit(2, 4)
+		emit(1, 5)
+	}
+	// random longer histories over the larger step set, on interpreters with records declared
+	n := 2500
+	if g.Thorough() {
+		n = 60000
+	}
+	r := g.Rng
+	vars := []string{"a", "b", "c"}
+	for i := 0; i < n; i++ {
+		l := 3 + r.Intn(4)
+		steps := []string{"(struct Rec [(field f: int64 e:0) (field g: ([]int64) e:1) (field k: (* Rec) e:2)])"}
+		for j := 0; j < l; j++ {
+			st := crashHistSteps[r.Intn(len(crashHistSteps))]
+			// mostly stay on one or two variables so that the steps interact
+			v := vars[r.Intn(2)]
+			if r.Intn(6) == 0 {
+				v = vars[2]
+			}
+			u := vars[r.Intn(len(vars))]
+			st = strings.ReplaceAll(strings.ReplaceAll(st, "%v", v), "%u", u)
+			steps = append(steps, st)
+		}
+		text := strings.Join(steps, "\n")
+		if crashDenied(text) {
+			g.Count("hist-denied")
+			continue
+		}
+		cfg := byte('s')
+		if r.Intn(6) == 0 {
+			cfg = 'x'
+		}
+		g.Emit("h %c %s", cfg, stringToCodes(text))
+		g.Count("hist-random")
+		g.Stats["hist-random-steps"] += l
+	}
+}
+
 func crashGenRepl(g *Gen) {
 	// batches through the real Repl() in a child process
 	var lines []string
@@ -879,6 +962,9 @@ func crashGen(g *Gen) {
 	}
 	if want("form") {
 		crashGenForms(g)
+	}
+	if want("hist") {
+		crashGenHist(g)
 	}
 	if want("body") {
 		crashGenBody(g)
